@@ -48,8 +48,6 @@ pub mod cmp {
     use vstd::prelude::*;
     pub fn min(a: usize, b: usize) -> (r: usize) ensures r == (if a <= b { a } else { b }) { if a <= b { a } else { b } }
 }
-pub assume_specification[i32::is_negative](x: i32) -> (r: bool) ensures r == (x < 0);
-pub assume_specification[i32::is_positive](x: i32) -> (r: bool) ensures r == (x > 0);
 /// R12: `p.is_null()` on raw pointers (vstd has no specification for it)
 pub trait IsNullShim { spec fn is_null_spec(&self) -> bool; fn is_null_shim(&self) -> (r: bool) ensures r == self.is_null_spec(); }
 impl<T> IsNullShim for *const T {
